@@ -38,12 +38,6 @@ def drawIds (live : Id → Bool) : Nat → List Id → List Id → Option (List 
       | none => none
       | some (l, _) => some (l, rest)
 
-/-- skip the draws `pickId` consumed -/
-def dropDrawn (live : Id → Bool) : Nat → List Id → List Id
-  | 0, l => l
-  | _, [] => []
-  | n+1, i :: rest => if live i then dropDrawn live n rest else rest
-
 def planLinks (g : Graph) (t2i : List (String × Id)) :
     List (Id × List String) → List (Id × Id) → Except CmdErr (List (Id × Id))
   | [], acc => .ok acc.reverse
@@ -92,73 +86,49 @@ structure SecOut where
   plan    : Option PlanOut := none
   deriving Repr, Inhabited
 
-def resolve (r : IdRef) (created : Option Id) : Id :=
-  match r with
-  | .lit i => i
-  | .created => created.getD ""
-
-/-- run one section against the log as it is at lock time -/
-def runSec (log : List Event) (created : Option Id) (env : Env) (s : Sec) : Except CmdErr (Write × SecOut × Env) :=
+/-- run the command's lock section against the log as it is at lock time -/
+def runSec (log : List Event) (env : Env) (s : Sec) : Except CmdErr (Write × SecOut) :=
   match replay log with
   | .error e => .error (.replay e)
   | .ok g =>
     match s with
-    | .create isEpic epicId title body =>
-      (secCreate g isEpic epicId title body env.ids (env.uuids.headD "") env.now).map fun (w, id) =>
-        (w, { created := some id, uuid := env.uuids.headD "", now := env.now },
-         { env.tick with ids := dropDrawn g.taken 64 env.ids, uuids := env.uuids.tail })
-    | .result id summary _path =>
-      (secResult g (resolve id created) summary env.po env.now).map fun w => (w, { now := env.now }, env.tick)
-    | .set id u =>
-      (secSet g (resolve id created) u env.agent env.now).map fun w => (w, { now := env.now }, env.tick)
-    | .link un f t => (secLink g un f t).map fun w => (w, {}, env)
+    | .create isEpic epicId title body follow =>
+      (secCreate g isEpic epicId title body follow env.ids (env.uuids.headD "") env.agent env.po env.now).map fun (w, id) =>
+        (w, { created := some id, uuid := env.uuids.headD "", now := env.now })
+    | .update id r =>
+      (secUpdate g id r env.agent env.po env.now).map fun w => (w, { now := env.now })
+    | .links un edges => (secLinks g un edges).map fun w => (w, {})
     | .claimOldest epic =>
-      (secClaimOldest g epic env.agent env.now).map fun (w, t) => (w, { claimed := some t, now := env.now }, env.tick)
+      (secClaimOldest g epic env.agent env.now).map fun (w, t) => (w, { claimed := some t, now := env.now })
     | .prune apply =>
       let (w, ids) := secPrune g apply env.agent env.now
-      .ok (w, { pruned := ids, now := env.now }, if apply && !ids.isEmpty then env.tick else env)
-    | .compact => .ok (secCompact g, {}, env)
-    | .plan p => (secPlan log g p env).map fun (w, o) => (w, { plan := some o }, env)
+      .ok (w, { pruned := ids, now := env.now })
+    | .compact => .ok (secCompact g, {})
+    | .plan p => (secPlan log g p env).map fun (w, o) => (w, { plan := some o })
 
 def applyWrite (log : List Event) : Write → List Event
   | .append evs => log ++ evs
   | .replace evs => evs
 
-structure RunState where
-  log     : List Event
-  created : Option Id := none
-  env     : Env
-  outs    : List SecOut := []
-  writes  : List Write := []
-  deriving Repr, Inhabited
-
-/-- run the sections in order; the first error stops the command, keeping earlier writes -/
-def runSecs : List Sec → RunState → RunState × Option CmdErr
-  | [], st => (st, none)
-  | s :: rest, st =>
-    match runSec st.log st.created st.env s with
-    | .error e => (st, some e)
-    | .ok (w, o, env') =>
-      runSecs rest { log := applyWrite st.log w, created := o.created <|> st.created, env := env',
-                     outs := st.outs ++ [o], writes := st.writes ++ [w] }
-
 structure CmdResult where
   err    : Option CmdErr
   log    : List Event            -- the log afterwards
-  writes : List Write
-  outs   : List SecOut
+  write  : Option Write
+  out    : SecOut
   deriving Repr, Inhabited
 
-/-- a whole command, run alone -/
+/-- a whole command, run alone: pre-lock validation, then its one lock section -/
 def runCmd (log : List Event) (env : Env) (req : Request) : CmdResult :=
-  match sections env.agent req with
-  | .error e => { err := some e, log, writes := [], outs := [] }
-  | .ok secs =>
-    let (st, e) := runSecs secs { log, env }
-    -- `claim` (oldest ready) turns "no ready tasks" into exit 0
-    let e := match req, e with
-      | .claimOldest _, some .noReady => none
-      | _, e => e
-    { err := e, log := st.log, writes := st.writes, outs := st.outs }
+  match sectionOf env.agent req with
+  | .error e => { err := some e, log, write := none, out := {} }
+  | .ok sec =>
+    match runSec log env sec with
+    | .ok (w, o) => { err := none, log := applyWrite log w, write := some w, out := o }
+    | .error e =>
+      -- `claim` (oldest ready) turns "no ready tasks" into exit 0
+      let e' := match req, e with
+        | .claimOldest _, .noReady => none
+        | _, e => some e
+      { err := e', log, write := none, out := {} }
 
 end Ergo
